@@ -7,6 +7,7 @@ class B:
         self.ops = []
         self.n = 0
         self.creator = []          # handle k is created by operation number creator[k]
+        self.rcreator = []         # register handle k is created by operation number rcreator[k]
 
     def new(self, node):
         self.creator.append(len(self.ops))
@@ -20,14 +21,36 @@ class B:
         self.n += 1
         return self.n - 1
 
+    def newreg(self, node, maxq):
+        """client-made empty register (must succeed); returns its register handle"""
+        self.rcreator.append(len(self.ops))
+        self.ops.append(("newreg", node, maxq))
+        return len(self.rcreator) - 1
+
+    def newin(self, node, rh):
+        """qubit created inside the client-made register rh (must succeed)"""
+        self.creator.append(len(self.ops))
+        self.ops.append(("newinreg", node, rh))
+        self.n += 1
+        return self.n - 1
+
+    def newinq(self, node, h):
+        """qubit created inside the register that currently simulates the held qubit h (must succeed)"""
+        self.creator.append(len(self.ops))
+        self.ops.append(("newinregq", node, h))
+        self.n += 1
+        return self.n - 1
+
     def sym(self):
         """handles replaced by the index of their creating operation (net_run.replay format)"""
-        fields = {"g1": [1], "g2": [1, 2], "send": [1], "meas": [1], "new": []}
+        fields = {"g1": [1], "g2": [1, 2], "send": [1], "meas": [1], "new": [], "newreg": [], "newinreg": [], "newinregq": [2]}
         out = []
         for o in self.ops:
             o = list(o)
             for f in fields[o[0]]:
                 o[f] = self.creator[o[f]]
+            if o[0] == "newinreg":
+                o[2] = self.rcreator[o[2]]
             out.append(tuple(o))
         return out
 
@@ -238,3 +261,61 @@ def big_merge():
     b.g1(moved, "H")
     out.append(("big_local_merge_beyond_default_register_size", caps, b.sym()))
     return out
+
+
+def register_api():
+    """the two client operations on registers (remote_add_register, remote_new_qubit_inreg): fill a register of capacity 2, refusals (full,
+    foreign node, node full, capacity 0), a qubit of the register sent away and one measured out, creation again, the client-made register
+    absorbing another one (local merge) and being pulled to another node (remote merge), the register limit reached by newreg"""
+    b = B()
+    caps = [(5, 4), (5, 4), (2, 3)]
+    R0 = b.newreg(0, 2)                         # register 0 of node 0: empty, capacity 2
+    a = b.newin(0, R0)
+    c = b.newin(0, R0)                          # full
+    b.raw(("newinreg", 0, R0))                  # third creation refused: register full
+    b.raw(("newinreg", 1, R0))                  # asked of a node that does not simulate the register: refused
+    b.g1(a, "H"); b.g2(a, c, "cnot")            # same register: just the gate
+    c1 = b.send(c, 1)                           # one sent away: still simulated in the register at node 0
+    b.raw(("newinreg", 0, R0))                  # hence still full
+    b.meas(a, False, True)                      # one measured out: the register holds one qubit (c1's) at position 0
+    d = b.newin(0, R0)                          # create again: position 1
+    b.g1(d, "K")
+    e = b.new(0)                                # an ordinary one-qubit register (capacity 10)
+    b.g1(e, "H")
+    b.g2(d, e, "cnot")                          # local merge: the client-made register absorbs e's (capacity 2 + 1)
+    b.raw(("newinreg", 0, R0))                  # 3 of 3: refused
+    b.meas(e, True, False)
+    f = b.new(1)
+    b.g1(f, "H")
+    b.g2(f, c1, "cphase")                       # node 1: control local, target simulated at 0 -> the client-made register is pulled to node 1
+    g = b.newinq(1, f)                          # create inside the merged register at node 1 (capacity 10 + 3)
+    b.g1(g, "H")
+    b.g2(g, c1, "cnot")
+    b.raw(("newinregq", 0, f))                  # node 0 no longer simulates it: refused
+    d1 = b.send(d, 2)                           # held by 2, simulated at 1
+    b.meas(g, False, True)
+    b.meas(d1, False, False)
+    # register limit at node 2 (3 registers, 2 qubits)
+    R1 = b.newreg(2, 1)
+    R2 = b.newreg(2, 0)
+    R3 = b.newreg(2, 3)
+    b.raw(("newreg", 2, 1))                     # refused: register limit
+    b.raw(("new", 2))                           # ordinary creation needs a register too: refused
+    b.raw(("newinreg", 2, R2))                  # capacity 0: always full
+    h = b.newin(2, R1)
+    b.raw(("newinreg", 2, R1))                  # full
+    i = b.newin(2, R3)
+    b.raw(("newinreg", 2, R3))                  # room in the register, but the node holds its maximum of 2
+    b.g1(h, "H")
+    b.g2(h, i, "cnot")                          # two client-made registers merge: one register slot is free again
+    R4 = b.newreg(2, 2)
+    b.raw(("newinreg", 2, R4))                  # node full
+    b.meas(h, False, True)
+    j = b.newin(2, R4)
+    b.g2(j, i, "cphase")
+    b.meas(i, False, True)
+    b.meas(j, False, False)
+    b.meas(c1, False, True)
+    b.meas(f, False, False)
+    b.meas(e, False, True)
+    return [("register_api", caps, b.sym())]
